@@ -4,7 +4,7 @@
 Translated on every check (common.regenerate): tzfile._find_last_transition, _get_ttinfo,
 _find_ttinfo, fromutc, is_ambiguous, _resolve_ambiguous_time, utcoffset, dst, tzname; the module
 functions _datetime_to_timestamp, datetime_exists, datetime_ambiguous, resolve_imaginary; the generic
-layer _tzinfo._fold_status, _fromutc, fromutc; and the `ttinfo_before` choice inside _read_tzfile.
+layer _tzinfo.is_ambiguous, _fold_status, _fromutc, fromutc; and the `ttinfo_before` choice inside _read_tzfile.
 coq/tzfile/TzGenThm.v proves each generated function equal to the hand model for all inputs.
 
 ACCEPTED SUBSET (anything else -> TranslateError; the output file is then replaced by one that does
@@ -360,7 +360,7 @@ def call(e, env, cx):
             if e.args or len(e.keywords) != 1 or e.keywords[0].arg != "tzinfo":
                 fail("replace arguments", e)
             tzv = e.keywords[0].value
-            if not (is_none(tzv) or is_name(tzv, "tz")):
+            if not (is_none(tzv) or is_name(tzv, "tz") or (is_name(tzv, "self") and cx.mode == "generic")):
                 fail("replace(tzinfo=...)", e)
             v = ex(f.value, env, cx)
             if v[1] != "DT":
@@ -751,7 +751,8 @@ def translate(tz_src, common_src, zi_src=None):
     # ---- generic layer of tz/_common.py
     ctree = ast.parse(common_src)
     ccls = find_class(ctree, "_tzinfo")
-    for name, coqn, params, ret in (("_fold_status", "gen_generic_fold_status", [("dt_utc", "DT", None), ("dt_wall", "DT", None)], "Z"),
+    for name, coqn, params, ret in (("is_ambiguous", "gen_generic_is_ambiguous", [("dt", "DT", None)], "B"),
+                                    ("_fold_status", "gen_generic_fold_status", [("dt_utc", "DT", None), ("dt_wall", "DT", None)], "Z"),
                                     ("_fromutc", "gen_generic__fromutc", [("dt", "DT", None)], "DT"),
                                     ("fromutc", "gen_generic_fromutc", [("dt", "DT", None)], "DT")):
         fn = find_func(ccls.body, name)
@@ -787,7 +788,6 @@ PINNED = {
  "tz.py:tzoffset.fromutc": "512020a499fce61f",
  "tz.py:tzoffset.is_ambiguous": "15ca017930e2e459",
  "tz.py:_ttinfo.__eq__": "a987fc9c5b21e7ec",
- "_common.py:_tzinfo.is_ambiguous": "3f6bcd60b4968284",
  "_common.py:_tzinfo._fold": "34346b303708c1e1",
  "zoneinfo/__init__.py:ZoneInfoFile.__init__": "66d5edfdae05e6e7",
  "zoneinfo/__init__.py:ZoneInfoFile.get": "c94822a2eec78ee8",
